@@ -27,6 +27,10 @@ CHECKS = {
   technique="TLA+ spec (NodeClock.tla) model-checked with TLC over writes/remote deltas/checkpoints/crash/recovery; exported lives replayed on a real ReplicatedShardedState; traces validated by TLC (NodeClockTrace.tla)",
   text="design level: StampAboveSeen, NeverRepeats, NewestWins, ClockDominates over all interleavings of local writes, remote stamps, checkpoints and up to 2 crashes, with the as-built counterexample; implementation level: every exported life and thousands of random ones run on a real node (16 shard actors, snapshot_state/apply_recovered_state as restart) and TLC checks every issued stamp against everything the running node has observed for the key",
   note="durability of acknowledged writes assumed (C09/C12); stamps compared per key because the code has one clock per shard"),
+ "C15": dict(
+  technique="TLA+ spec (Resp.tla: Decode/Encode over byte sequences) model-checked with TLC over every string up to a bound (Total, Stable, RoundTrip); both real decoders, the incremental codec under every fragmentation and the three encoders run on enumerated/targeted/random inputs and every outcome is judged by TLC (RespTrace.tla)",
+  text="every byte string of length <= 4 (thorough 5) over the 11-symbol grammar alphabet, targeted length/limit/nesting families (in a separate process so that a stack overflow or runaway allocation is observed as a verdict), every 3-way fragmentation of five valid streams, thousands of value trees through all three encoders, and 0.3-3 million random strings (panic and allocation bound on all, TLC verdict on a sample)",
+  note="allocation bound 64*len+4096 via a counting global allocator; RespParser's text conversion compared for ASCII only"),
  "C18": dict(
   technique="TLA+ spec (AntiEntropy.tla) model-checked with TLC incl. liveness (EventuallyInSync under weak fairness); TLC-exported state pairs rebuilt as real replica states on keys colliding in real digest buckets; real StateDigest and run_anti_entropy_sync results judged by TLC (AeTrace.tla)",
   text="design level: digests as injective functions of bucket content, sync rounds under a key limit with a rotating sender are live for Limit 1 and 2, the fixed-prefix sender is not; implementation level: for every exported pair and thousands of random histories (independent maps, shuffled merge orders, hashes with equal outer stamps, tombstones) differs_from / divergent_buckets must equal the truth TLC computes from the observable projection, and every real sync round must move keys only to the merge and end merged within the bound",
